@@ -245,8 +245,136 @@ func opCoalesce(r *hx.Run, kind string, arts []mLayer) *claircore.IndexReport {
 		case "rhel":
 			checkRhelLast(r, arts, ir)
 		}
+		countBranches(r, kind, arts, ir)
 	}
 	return ir
+}
+
+// countBranches records which branches of the coalescers a generated case reached.
+func countBranches(r *hx.Run, kind string, arts []mLayer, ir *claircore.IndexReport) {
+	switch kind {
+	case "linux":
+		dbLayers := map[string]map[int]bool{}
+		for i, l := range arts {
+			for _, p := range l.Pkgs {
+				if dbLayers[p.DB] == nil {
+					dbLayers[p.DB] = map[int]bool{}
+				}
+				dbLayers[p.DB][i] = true
+			}
+		}
+		multi := false
+		for _, ls := range dbLayers {
+			if len(ls) > 1 {
+				multi = true
+			}
+		}
+		if multi {
+			r.Count("branch:linux:database-in-several-layers")
+		}
+		if len(dbLayers) > 1 {
+			r.Count("branch:linux:several-databases")
+		}
+		// how the distribution of an environment was found
+		idx := map[string]int{}
+		for i, l := range arts {
+			if _, ok := idx[l.Hash]; !ok {
+				idx[l.Hash] = i
+			}
+		}
+		for _, es := range ir.Environments {
+			if len(es) > 1 {
+				r.Count("branch:linux:package-in-two-databases")
+			}
+			for _, e := range es {
+				i, ok := idx[nameOf(e.IntroducedIn.String())]
+				if !ok {
+					continue
+				}
+				switch {
+				case e.DistributionID == "":
+					r.Count("branch:linux:dist:none")
+				case len(arts[i].Dists) > 0 && arts[i].Dists[0] == e.DistributionID:
+					r.Count("branch:linux:dist:own-layer")
+				default:
+					back := false
+					for j := i - 1; j >= 0; j-- {
+						if len(arts[j].Dists) > 0 {
+							back = arts[j].Dists[0] == e.DistributionID
+							break
+						}
+					}
+					if back {
+						r.Count("branch:linux:dist:earlier-layer")
+					} else {
+						r.Count("branch:linux:dist:later-layer")
+					}
+				}
+			}
+		}
+	case "rhel":
+		all := map[string]bool{}
+		for _, l := range arts {
+			for _, p := range l.Pkgs {
+				all[p.ID] = true
+			}
+		}
+		if len(all) > len(ir.Packages) {
+			r.Count("branch:rhel:package-dropped")
+		}
+		first, last := -1, -1
+		for i, l := range arts {
+			for _, rp := range l.Repos {
+				if rp.Key == "rhel-cpe-repository" {
+					if first < 0 {
+						first = i
+					}
+					last = i
+				}
+			}
+		}
+		switch {
+		case first < 0:
+			r.Count("branch:rhel:no-redhat-repos")
+		default:
+			if first > 0 {
+				r.Count("branch:rhel:repos-shared-backward")
+			}
+			if last < len(arts)-1 {
+				r.Count("branch:rhel:repos-shared-forward")
+			}
+		}
+		for _, es := range ir.Environments {
+			for _, e := range es {
+				if len(e.RepositoryIDs) > 0 {
+					r.Count("branch:rhel:env-with-repos")
+				}
+				if e.DistributionID != "" {
+					r.Count("branch:rhel:env-with-dist")
+				}
+			}
+		}
+	case "lang", "gobin":
+		seen := map[string]int{}
+		for _, l := range arts {
+			for _, p := range l.Pkgs {
+				seen[p.ID]++
+			}
+		}
+		for id, n := range seen {
+			if _, ok := ir.Packages[id]; ok && n > 1 {
+				r.Count("branch:" + kind + ":package-in-several-layers")
+			} else if !ok {
+				r.Count("branch:" + kind + ":package-skipped(no repository / not go:)")
+			}
+		}
+	case "wh":
+		for _, l := range arts {
+			if len(l.Files) > 1 {
+				r.Count("branch:wh:several-files-in-a-layer")
+			}
+		}
+	}
 }
 
 type eco struct {
@@ -301,6 +429,36 @@ func opIndex(r *hx.Run, layers []string, ecos []eco) {
 	r.Count("idx")
 	if final != nil {
 		checkMerged(r, layers, ecos, final, op)
+		total := map[string]bool{}
+		for _, e := range ecos {
+			for _, l := range e.Arts {
+				if e.Kind == "wh" {
+					continue
+				}
+				for _, p := range l.Pkgs {
+					total[p.ID] = true
+				}
+			}
+		}
+		for _, es := range final.Environments {
+			if len(es) > 1 {
+				r.Count("branch:idx:package-with-several-environments")
+				break
+			}
+		}
+		if len(final.Files) > 0 {
+			r.Count("branch:idx:whiteouts-present")
+		}
+		if len(layers) != 0 {
+			seen := map[string]bool{}
+			for _, l := range layers {
+				if seen[l] {
+					r.Count("branch:idx:duplicate-digest")
+					break
+				}
+				seen[l] = true
+			}
+		}
 	}
 }
 
